@@ -23,6 +23,17 @@ MKEY_PARTS = (["mkey_setkey_%d_%d" % (r, m) for r in (5, 6, 7, 8) for m in (1, 0
 QUICK_MKEY = ["mkey_setkey_5_1", "mkey_setkey_8_0", "mkey_setkeybad_16_9", "mkey_setkeybad_15_6", "mkey_settweak_8",
               "mkey_settweak_null", "mkey_swap"]
 # key-schedule functions: every accepted key size, rejected sizes, tweaked keys, tweak changes for both round counts
+# generic CTR encryption functionally, block function as a procedure call (WholeProc.v / WholeCtr.v): (request size, offset
+# of the first unused key-stream byte) — empty request, inside the buffered block, up to its end, across one or several
+# refills, ending on a block boundary or with a partial block
+def pctr_parts(quick):
+    out = []
+    for c, bs in (("c128", 16), ("c64", 8), ("mc", 8)):
+        if quick: cfgs = [(bs + 3, 5), (bs + 1, bs), (1, bs)] if c == "c128" else [(bs + 1, bs), (2 * bs + 3, 3)]
+        else: cfgs = [(0, bs), (0, 3), (1, bs), (1, 0), (bs - 1, 1), (bs, bs), (bs, 0), (bs + 1, bs), (bs + 3, 5), (2 * bs, bs),
+                      (2 * bs, 1), (3 * bs + 3, bs - 1), (4 * bs + 1, bs), (5, bs - 5), (5, bs - 4), (2, bs - 1)]
+        out += ["pctr_%s_%d_%d" % (c, sz, off) for sz, off in cfgs]
+    return out
 def key_parts(w, quick):
     bs = 16 if w == "128" else 8
     fam = "key" + w
